@@ -108,6 +108,9 @@ func c03Grid() []string {
 		out = append(out, "http://a.example/p?k=%"+x+x, "http://a.example/p?k=%"+x)
 	}
 	out = append(out, "http://a.example/p?k=%", "http://a.example/p?k=%4", "http://a.example/p?k=%%34", "http://a.example/p?k=%%341", "http://a.example/p?k=100%&x=1", "http://a.example/p?k=100q=1", "http://a.example/p?k=%zz", "http://a.example/p?k=3")
+	// dot segments inside the query are data, not path structure
+	out = append(out, "http://a.example/p?next=/admin/../public", "http://a.example/p?next=/public", "http://a.example/p?next=/a/./b", "http://a.example/p?next=/a/b",
+		"http://a.example/p?next=/a/%2E%2E/b", "http://a.example/p?next=/b", "http://a.example/p?next=/a/..", "http://a.example/p?next=/", "http://a.example/p?next=..", "http://a.example/p?next=.", "http://a.example/p?next=")
 	out = append(out, "struct:rawpath:", "struct:forcequery:", "struct:opaque:http", "struct:opaque:https", "struct:space:", "struct:upperhost:")
 	out = append(out, "struct:opaqueh:a.example", "struct:opaqueh:b.example", "struct:opaqueh:A.EXAMPLE", "struct:opaqueh:a.example?user=1", "struct:opaqueh:a.example?user=2", "struct:opaqueh:b.example?user=1")
 	// dot-segments spelled both ways in one path; hosts that differ only by a
